@@ -218,11 +218,16 @@ void Runner::op_start(Thread *t, int idx, const Op &op, OpRes &res) {
   int want_err = 0;
   bool fault_seen = false, fault_ignorable = false;
   const Fault *first = nullptr;
+  std::set<int> fault_errs;  // with several faults any of them may be the one that surfaces
   for (auto &f : k->faults) {
     if (!f.fired || f.op != idx) continue;
     fault_seen = true;
+    int e = f.err == F_NULL ? ENOMEM : f.err;
+    // documented to be ignored (close), retried (getcwd ERANGE, EINTR on the error pipe / reaping) or to fall back (fileno EBADF on a parent stream)
     bool ignorable = f.kind == K_close || (f.kind == K_sigaction && f.err == EINVAL) || (f.kind == K_getcwd && f.err == ERANGE) ||
-                     (f.kind == K_fileno && f.err == EBADF) || f.err == F_SHORT;
+                     (f.kind == K_fileno && f.err == EBADF) || f.err == F_SHORT || (f.err == EINTR && !f.child && (f.kind == K_read || f.kind == K_waitpid)) ||
+                     (!f.child && f.kind == K_sigmask && f.nth >= 2);
+    if (e > 0) fault_errs.insert(e);
     if (ignorable) { fault_ignorable = true; continue; }
     if (!first) first = &f;
   }
@@ -242,6 +247,7 @@ void Runner::op_start(Thread *t, int idx, const Op &op, OpRes &res) {
   int fcodes[4] = { s.in.file, s.out.file, s.err.file, s.file };
   for (int fc : fcodes) if (fc == 2) natural.insert(EBADF);
   if (s.input_size > 0 && (uint64_t) s.input_size > k->w.pipe_cap) { natural.insert(EAGAIN); probe(P_input_gt_cap); }
+  if (!s.fork || true) { if (k->caller->rlim_cur - 1 > 1024 * 1024) natural.insert(EMFILE); }
   // deep working directory: the absolute program path can exceed PATH_MAX
   bool beyond_pathmax = false;
   if (!s.fork && s.wd != 0 && (s.prog == 1 || s.prog == 2)) {
@@ -255,22 +261,22 @@ void Runner::op_start(Thread *t, int idx, const Op &op, OpRes &res) {
     h->start_failed_once = true;
     // nothing may be left behind
     if (child && child->st != Proc::REAPED)
-      viol("C04", "child-left-behind", fmt("child=%s", child->st == Proc::RUNNING ? "running" : "zombie"),
+      viol("C04", "child-left-behind", fmt("child=%s/fault=%s@%s", child->st == Proc::RUNNING ? "running" : "zombie", first ? kind_name[first->kind] : "none", first ? (first->child ? "child" : "parent") : "-"),
            fmt("start returned %s but the child it forked (pid %d) is still %s", errn(v).c_str(), child->pid,
                child->st == Proc::RUNNING ? "running" : "an unreaped zombie"), idx);
     for (size_t fd = 0; fd < k->caller->fds.size(); fd++) {
       FdEnt &e = k->caller->fds[fd];
       if (e.ofd && e.owner == OWN_LIB && e.made_op == idx)
-        viol("C05", "descriptor-leak", "made-by=start/at=failed-start", fmt("descriptor %zu opened by the failed start is still open", fd), idx);
+        viol("C05", "descriptor-leak", "made-by=start/at=failed-start/" + fault_tag(idx), fmt("descriptor %zu opened by the failed start is still open", fd), idx);
     }
     // the cause
     if (want_err) {
-      if (v != -want_err && !natural.count((int) -v))
+      if (v != -want_err && !natural.count((int) -v) && !fault_errs.count((int) -v))
         viol("C04", "wrong-error", fmt("fault=%s/side=%s", kind_name[first->kind], first->child ? "child" : "parent"),
              fmt("%s was made to fail with %s on the %s side but start returned %s", kind_name[first->kind], strerror(want_err),
                  first->child ? "child" : "parent", errn(v).c_str()), idx);
     } else if (!natural.empty()) {
-      if (!natural.count((int) -v))
+      if (!natural.count((int) -v) && !fault_errs.count((int) -v))
         viol("C04", "wrong-error", "cause=unexecutable-input", fmt("start returned %s, expected one of the natural causes (first: %s)", errn(v).c_str(),
                                                                    strerror(*natural.begin())), idx);
     } else if (!fault_ignorable) {
@@ -278,7 +284,7 @@ void Runner::op_start(Thread *t, int idx, const Op &op, OpRes &res) {
       int low = plan.w.low_fds;
       viol("C10", "valid-configuration-failed", fmt("in=%s/out=%s/err=%s/low-fds=%d", redir_name(C, eff[0]), redir_name(C, eff[1]), redir_name(C, eff[2]), low),
            fmt("start returned %s for a valid configuration without any injected failure", errn(v).c_str()), idx);
-    } else {
+    } else if (!fault_errs.count((int) -v)) {
       viol("C04", "ignorable-failure-not-ignored", fmt("fault=%s", "close-or-retry"), fmt("start returned %s after a failure it is documented to ignore or retry", errn(v).c_str()), idx);
     }
     return;
